@@ -1,5 +1,5 @@
 /* vgen.h — input-shape grammar shared by the conformance drivers (deterministic from a seed).
- * kinds: text rand rle zero mix longrep blockdup tailmatch straddle edge longlit longmatch period repheavy records sparse copies copies1m */
+ * kinds: text rand rle zero mix longrep blockdup tailmatch straddle edge longlit longmatch period repheavy records sparse copies copies1m tworegime */
 #ifndef VGEN_H
 #define VGEN_H
 #include <string.h>
@@ -52,6 +52,11 @@ static void vgen(const char* kind, size_t n, unsigned seed, unsigned char* d) {
         size_t k = 3 + seed % 4, r = n / k ? n / k : 1; for (i = 0; i < n; i++) d[i] = (i < r) ? (unsigned char)(VG_RND >> 3) : d[i - r]; }
     else if (!strcmp(kind, "copies1m")) {      /* the same with a region of 1 MiB (+ 0..3 pages) */
         size_t r = ((size_t)1 << 20) + (seed % 4) * 4096; for (i = 0; i < n; i++) d[i] = (i < r) ? (unsigned char)(VG_RND >> 3) : d[i - r]; }
+    else if (!strcmp(kind, "tworegime")) {     /* per 100 KB: words of lowercase letters, then binary-looking records of another alphabet (a block worth splitting) */
+        static const char* const w[] = { "capacity", "buffer", "frame", "literal", "sequence", "offset", "window", "dictionary", "entropy", "huffman", "symbol", "table", "block", "header", "stream", "match" };
+        for (i = 0; i < n; ) { size_t seg = (i / 50000) & 1; if (!seg) { const char* x = w[VG_RND % 16]; size_t l = strlen(x), j; if (VG_RND % 5 == 0) { d[i++] = (unsigned char)('a' + VG_RND % 26); continue; } for (j = 0; j < l && i < n; j++) d[i++] = (unsigned char)x[j]; if (i < n) d[i++] = ' '; }
+            else { unsigned r = VG_RND | (VG_RND << 15); unsigned char rec[12]; size_t j; rec[0] = 0xF0; rec[1] = 0xF1; rec[2] = (unsigned char)(0x80 + (r & 7)); rec[3] = (unsigned char)(0x90 + ((r >> 3) & 3)); rec[4] = (unsigned char)(0xC0 + ((r >> 8) & 63)); rec[5] = (unsigned char)(0xC0 + ((r >> 14) & 63));
+                rec[6] = (unsigned char)(0xC0 + ((r >> 20) & 63)); rec[7] = 0xFE; rec[8] = 0xFE; rec[9] = (unsigned char)(0xA0 + ((r >> 26) & 15)); rec[10] = 0xFF; rec[11] = 0x00; for (j = 0; j < 12 && i < n; j++) d[i++] = rec[j]; } } }
     else if (!strcmp(kind, "sparse")) { memset(d, 0, n); for (i = 0; i < n; i += 1 + VG_RND % 5000) d[i] = (unsigned char)(1 + VG_RND % 255); }
     else if (!strcmp(kind, "mix")) {
         i = 0; while (i < n) { size_t run = 1 + VG_RND % 700; unsigned m = VG_RND % 4; size_t j;
